@@ -1,7 +1,7 @@
 # lib/time-core.c
 TU('time-core', 'lib/time-core.c', LIB_CFLAGS, defs=['VERIF_TU_TIME_CORE 1'], pre=['spec/greg.h'], post=['contracts/time-core.contracts.h'],
    native_link=['lib/strops.c', 'lib/token.c', 'lib/dt-locale.c', 'lib/dt-core.c', 'lib/date-core.c', 'lib/leaps.c', 'lib/tzraw.c', 'lib/dt-core-tz-glue.c'])
-TP = ['C11', 'C08', 'C14', 'C15', 'C16', 'C05']
+TP = ['C11', 'C08']
 T_IN = [('unsigned', 'in_h'), ('unsigned', 'in_m'), ('unsigned', 'in_s'), ('unsigned', 'in_ns')]
 T_SET = 'struct dt_t_s t = {DT_TUNK}; t.typ = DT_HMS; t.hms.h = in_h; t.hms.m = in_m; t.hms.s = in_s; t.hms.ns = in_ns;'
 T2_IN = [('unsigned', 'in_h2'), ('unsigned', 'in_m2'), ('unsigned', 'in_s2'), ('unsigned', 'in_ns2')]
